@@ -316,8 +316,15 @@ def symbolic_attractor_test(
     # completed and no unprocessed variables remaining.
     all_done = False
 
+    # Growth of `reach_set` can be declined by the size heuristic below. If a
+    # whole pass of the main loop changes nothing because of that (and no
+    # remaining variable can fire), the heuristic has to be overridden,
+    # otherwise the loop would repeat the same pass forever.
+    force_growth = False
+
     while not all_done:
         all_done = True
+        progress = False
 
         # Saturate reach_set with currently selected variables, but only if
         # it's symbolic size is smaller than that of the avoid set (reach set
@@ -342,9 +349,15 @@ def symbolic_attractor_test(
                     all_variables_done = (
                         len(conflict_vars) == 0 and len(other_vars) == 0
                     )
-                    if no_avoid or avoid_is_larger or all_variables_done:
+                    if (
+                        no_avoid
+                        or avoid_is_larger
+                        or all_variables_done
+                        or force_growth
+                    ):
                         reach_set = updated
                         saturation_done = False
+                        progress = True
                         if reach_set.symbolic_size() > 100_000 and sd.config["debug"]:
                             print(
                                 f"[{node_id}] > Saturation({len(saturated_vars)}) Incremented forward reach set: {reach_set}"
@@ -367,6 +380,7 @@ def symbolic_attractor_test(
                         all_done = False
                         avoid = avoid.union(predecessors)
                         saturation_done = False
+                        progress = True
                         if avoid.symbolic_size() > 100_000 and sd.config["debug"]:
                             print(
                                 f"[{node_id}] > Saturation({len(saturated_vars)}) Incremented backward avoid set: {avoid}"
@@ -425,6 +439,7 @@ def symbolic_attractor_test(
                 continue
 
             all_done = False
+            progress = True
 
             reach_set = reach_set.union(can_go_fwd)
             if avoid is not None:
@@ -444,6 +459,8 @@ def symbolic_attractor_test(
                 )
 
             break
+
+        force_growth = not progress
 
     if sd.config["debug"]:
         print(f"[{node_id}] > Reachability completed with {reach_set}.")
